@@ -1,16 +1,34 @@
 #!/bin/bash
-# tools/verify_seeded.sh [ids...] : runs every seeded change (or the given ones) against the check(s) recorded in its
-# meta.json, 4 at a time, each in its own scratch worktree; prints one line per change.
+# tools/verify_seeded.sh [ids...] : runs every seeded change (or the given ones) against the check(s) named in its
+# meta.json (final.detected_by), 4 at a time, each in its own scratch worktree of /repo; records exit codes and
+# violation signatures in the meta.json and prints one line per change. SKIP_SUITE=1 skips the repository's own suite.
 cd ${VERIF_HOME:-/verif}
-ids=${@:-$(ls seeded)}
-run() {
-  id=$1
-  checks=$(python3 -c "import json;m=json.load(open('seeded/$id/meta.json'));print(' '.join(m['final']['detected_by']))")
-  out=$(tools/try_mutant.sh $checks < /dev/null 2>&1)
-  :
+mkdir -p /tmp/mutv
+one() {
+  sid=$1
+  args=$(python3 -c "import json;m=json.load(open('seeded/$sid/meta.json'));d=m['final']['detected_by'];print(d[0], 'seeded/$sid/patch.diff', ' '.join(d[1:]))")
+  out=$(tools/try_mutant.sh $args 2>&1)
+  echo "$out" > /tmp/mutv/v.$sid.log
+  python3 - "$sid" <<'PY'
+import json,sys,re
+sid=sys.argv[1]
+out=open(f'/tmp/mutv/v.{sid}.log').read()
+p=f'seeded/{sid}/meta.json'
+m=json.load(open(p))
+sigs=sorted(set(re.findall(r'signature: (.*)',out)))
+per={}
+for l in out.split('\n'):
+    mm=re.match(r'== check (C\d+) exit=(\d+)',l)
+    if mm: per[mm.group(1)]=int(mm.group(2))
+last=out.strip().split('\n')[-1]
+m['final']['detected']= last=='DETECTED'
+m['final']['check_exit_codes']=per
+m['final']['signatures']=[s[:200] for s in sigs][:8]
+json.dump(m,open(p,'w'),indent=1)
+print(sid, last, per)
+PY
 }
-export -f run
-for id in $ids; do
-  checks=$(python3 -c "import json;m=json.load(open('seeded/$id/meta.json'));d=m['final']['detected_by'];print(d[0], 'seeded/$id/patch.diff', ' '.join(d[1:]))")
-  echo "$id|$checks"
-done | xargs -P 4 -I{} bash -c 'l="{}"; id=${l%%|*}; args=${l#*|}; r=$(tools/try_mutant.sh $args 2>&1 | tail -1); echo "$id $r"'
+export -f one
+ids=${@:-$(ls seeded)}
+for id in $ids; do echo $id; done | xargs -P 4 -I{} bash -c 'one {}'
+echo "#### VERIFY DONE"
